@@ -9,7 +9,7 @@
    All traces are validated in ONE run: `tid` is chosen in Init; `mismatch` records the first
    event of the trace that does not conform (trace id, event index, failing clause).
 
-   Trace file (JSON): [ { model, init: {n, fc, hbs, hms, area, pol, shadow, sigma},
+   Trace file (JSON): [ { model, init: {n, fc, hbs, hms, area, pol, shadow, sigma, bpol, bshadow},
                           ev: [ {op, arg, out, post: {..model's public parameters..}, preds: {name: bool}} ] } ]
    numbers are normalised rationals [p, q].                                                    *)
 EXTENDS Integers, Sequences, TLC, Json, IOUtils, PathLossParams
@@ -24,12 +24,15 @@ Init == /\ tid \in 1..Len(Traces) /\ i = 0 /\ mismatch = <<>>
         /\ st = Traces[tid].init
 
 Field(op) == CASE op = "SetPol" -> "pol" [] op = "SetShadow" -> "shadow" [] op = "SetSigma" -> "sigma"
+               [] op = "BySetPol" -> "bpol" [] op = "BySetShadow" -> "bshadow"
                [] op = "SetN" -> "n" [] op = "SetFc" -> "fc"
                [] op = "SetHbs" -> "hbs" [] op = "SetHms" -> "hms" [] op = "SetArea" -> "area"
 
 \* the specification's successor for one logged call
 \* ("Plot" is the plot helper: a query - it may draw or raise, the parameters stay as they are)
-Succ(s, e) == IF e.op # "Plot" /\ e.op \in Offers(T.model) /\ Accepts(T.model, e.op, e.arg)
+\* ("By.." are steps of ANOTHER live object: they only change that object's flags bpol / bshadow, a new one starts with both off)
+Succ(s, e) == IF e.op = "ByConstruct" THEN [s EXCEPT !.bpol = FALSE, !.bshadow = FALSE]
+              ELSE IF e.op # "Plot" /\ e.op \in Offers(T.model) /\ Accepts(T.model, e.op, e.arg)
                 THEN [s EXCEPT ![Field(e.op)] = e.arg] ELSE s
 ExpOut(e)  == IF e.op \in Offers(T.model) /\ Accepts(T.model, e.op, e.arg) THEN "ok" ELSE "raise"
 
